@@ -151,6 +151,13 @@ def build_group(ctx, fam, g):
       rng, gen.model_curve(c2).n, 2)):
     protos.append(s)
     tags.append('%s:healthy-other-curve' % c2)
+  # an issuer whose *key* is weak (structured private key) with honest nonces:
+  # whatever the issuer-key check writes for it must not rub off on the
+  # entries (verdict and severity) of the issuers judged after it
+  dF, pubF = sigs.issuer(rng, c, (rng.bits(32) | 1) << (8 * rng.randint(0, 20)))
+  for s in sigs.sign_many(rng, c, dF, pubF, sigs.nonces_uniform(rng, n, 2)):
+    protos.append(s)
+    tags.append('%s:weak-issuer-key:d=%x' % (c, dF))
   dE, pubE = sigs.issuer(rng, c)
   healthy = sigs.sign_many(rng, c, dE, pubE, sigs.nonces_uniform(rng, n, 3))
   return protos, tags, healthy
